@@ -798,7 +798,8 @@ class Interp:
         name = eqn.params.get("name", "")
         h = _PRNG_NAMED.get(name)
         if h is not None:
-            return h(self, eqn, *args)
+            r = h(self, eqn, *args)
+            return r if isinstance(r, list) else [r]
         return self.eval_closed(eqn.params["jaxpr"], *args)
 
     p_jit = p_pjit
@@ -911,7 +912,7 @@ class Interp:
             k = keys[idx]
             conc = jax.random.split(k.concrete, shape) if k.concrete is not None else None
             for j in np.ndindex(*shape):
-                out[idx + j] = AbsKey(("split", k.term, j), conc[j] if conc is not None else None)
+                out[idx + j] = AbsKey(("split", k.term, shape, j), conc[j] if conc is not None else None)
         return out
 
     def p_random_fold_in(self, eqn, keys, data):
